@@ -1107,6 +1107,24 @@ fn do_extract(repo: &str, ex: &Extract, probes: bool, probe_ctr: &mut usize) -> 
     } else if let Some(n) = ex.kv.get("as") {
         text = pass_rename(text, n)?;
     }
+    // X10 (declared per extract): `subst="OLD=>NEW;;OLD2=>NEW2"` replaces each OLD, which must occur EXACTLY `count` times
+    // (default once; `OLD=>NEW@N` for N occurrences), by NEW. Used only for calls Verus has no model of (the built-in
+    // `Clone` of tuples); the replacement is a shim function whose contract states the std meaning. A missing OLD fails
+    // the extraction (exit 2), so the rule cannot silently stop applying.
+    if let Some(sub) = ex.kv.get("subst") {
+        let mut n = 0usize;
+        for pair in sub.split(";;") {
+            let (old, new) = pair.split_once("=>").ok_or(Fail(format!("bad subst: {pair}")))?;
+            let (new, want) = match new.rsplit_once('@') { Some((a, c)) if c.parse::<usize>().is_ok() => (a, c.parse::<usize>().unwrap()), _ => (new, 1usize) };
+            let have = text.matches(old).count();
+            if have != want {
+                return fail(format!("subst: `{}` occurs {} times in the extract, expected {}", old, have, want));
+            }
+            text = text.replace(old, new);
+            n += have;
+        }
+        rewrites.insert("X10", n);
+    }
     let sha = sha256_hex(src[src_start..src_end].as_bytes());
     let sigonly = ex.kv.contains_key("sigonly");
     if sigonly {
